@@ -15,7 +15,7 @@ RULE = ("seqs_to_regex / seqs_to_consensus / seqlogos on every list of 1..3 equa
         "heat-map matrix vs alpha (below) / beta (above) distances in dendrogram order; non-trivial = data with at least two distinct values")
 ASSUMPTIONS = ["pixels are never inspected, only artist data", "pyplot's figure registry is environment: plt.close('all') after every call",
                "align=True paths need the external mafft-linsi binary (absent) and are outside the quantifier"]
-REQUIRED_CLASSES = {"all": ["gapped-column", "regex-language-checked", "nan-in-counts", "rare-label-black", "every-shuffle-permutation", "repeated-point", "clustermap-paired", "clustermap-single-chain", "shifted-index", "chain-boundary-shift-rows", "zero-in-counts", "non-integer-coordinates"]}
+REQUIRED_CLASSES = {"all": ["gapped-column", "regex-language-checked", "nan-in-counts", "rare-label-black", "every-shuffle-permutation", "repeated-point", "clustermap-paired", "clustermap-single-chain", "shifted-index", "chain-boundary-shift-rows", "zero-in-counts", "non-integer-coordinates", "unsigned-counts", "same-list-edited-in-place"]}
 MIN_OUTCOMES = 10
 SINGLE_THREAD_RAPIDFUZZ = True
 CD = ("CA", "CS", "AS")
@@ -153,6 +153,21 @@ def _regex(acc, case):
                 acc.fail("seqs_to_regex/language", case, "accepts exactly %s" % sorted(lang)[:12], {"regex": r, "word": w, "accepted": bool(rx.fullmatch(w))})
                 return
     acc.ok(("regex", r), nontrivial=len(lang) > 1)
+    # the caller's list edited in place and summarised again: the second summary is that of the new contents
+    if n >= 2 and not any(gapped):
+        acc.cls("same-list-edited-in-place")
+        work = list(seqs)
+        acc.call(pyrepseq.seqs_to_consensus, work, align=False)
+        acc.call(pyrepseq.seqs_to_regex, work, align=False)
+        new0 = "".join("S" if ch != "S" else "C" for ch in work[0])
+        work[0] = new0
+        r2 = acc.call(pyrepseq.seqs_to_regex, work, align=False)
+        c2 = acc.call(pyrepseq.seqs_to_consensus, work, align=False)
+        fresh_r, fresh_c = acc.call(pyrepseq.seqs_to_regex, list(work), align=False), acc.call(pyrepseq.seqs_to_consensus, list(work), align=False)
+        if raised(r2) or r2 != fresh_r or not re.compile(r2).fullmatch(new0) or c2 != fresh_c:
+            acc.fail("seqs_to_regex/same-list-edited-in-place", case, {"regex": fresh_r, "consensus": fresh_c}, {"regex": r2, "consensus": c2}, note="first element replaced by %r" % new0)
+            return
+        acc.ok()
     if not any(gapped):
         c = acc.call(pyrepseq.seqs_to_consensus, seqs, align=False)
         if raised(c) or not isinstance(c, str) or len(c) != L:
@@ -206,7 +221,11 @@ def _rank(acc, case):
     for nx in (True, False):
         for ny in (False, True):
             for sc in (1.0, 2.0):
-                for box in (list, np.array):
+                boxes = [list, np.array]
+                if all(v == v for v in vals):
+                    boxes.append(lambda v: np.array(v, dtype=np.uint64))      # counts are often stored unsigned
+                    acc.cls("unsigned-counts")
+                for box in boxes:
                     fig, ax = plt.subplots()
                     r = acc.call(P.rankfrequency, box(vals), ax=ax, normalize_x=nx, normalize_y=ny, scalex=sc, scaley=sc)
                     key = "rankfrequency/%s" % ("normalised" if nx or ny else "raw")
